@@ -2,31 +2,41 @@
 # Sensitivity self-test (DESIGN.md 2.8): every monitor is shown to fire on a realistic break.
 #  1. the tree just before each "fix:" commit (the defect is back) -> the property's quick check must report a violation
 #  2. every patch in mutants/ and seeded/*/patch.diff -> the quick check of its property must report a violation
-# Works on /repo itself (apply, run, restore), as the brief prescribes for seeded changes. Writes selftest_results.txt.
+# Never touches /repo: works on a scratch copy of /repo and /verif under /root/verif-scratch (removed at the end).
+# Writes selftest_results.txt.
 cd /verif
-if ! git -C /repo diff --quiet; then echo "refusing: /repo has uncommitted changes"; exit 2; fi
-out=selftest_results.txt; : > $out
-restore() { git -C /repo checkout -q HEAD -- . ; }
-trap restore EXIT
+S=/root/verif-scratch
+out=/verif/selftest_results.txt; : > $out
+export CARGO_TARGET_DIR=$S/target
+sync_scratch() {
+  mkdir -p $S
+  rsync -a --delete --exclude target --exclude .git /repo/ $S/repo/
+  rsync -a --delete --exclude 'target*' --exclude .git --exclude replays --exclude evidence --exclude seeded --exclude selftest_results.txt /verif/ $S/verif/
+  sed -i "s#\"/repo#\"$S/repo#g" $S/verif/harness/*/Cargo.toml
+}
 run_check() { # prop -> prints KILLED/survived + first oracle
-  local o rc; o=$(timeout 900 ./vcheck run $1 quick 2>&1); rc=$?
-  local first; first=$(echo "$o" | grep -A1 '^VIOLATION ' | sed -n 2p | cut -c3-160)
+  local o rc; o=$(cd $S/verif && timeout 1200 ./vcheck run $1 quick 2>&1); rc=$?
+  local first; first=$(echo "$o" | grep -A1 '^VIOLATION ' | sed -n 2p | cut -c3-170)
   if [ $rc -eq 1 ]; then echo "KILLED :: $first"; elif [ $rc -eq 0 ]; then echo "survived"; else echo "BROKEN rc=$rc"; fi
 }
-echo "## pre-fix trees" | tee -a $out
+echo "# sensitivity self-test, /repo at $(git -C /repo log --format=%h -1), /verif at $(git -C /verif log --format=%h -1)" | tee -a $out
+echo "## trees just before each fix commit (defect present again)" | tee -a $out
 grep '^fixed:' known_findings.txt | while read -r _ prop commit rest; do
   p=${prop#property=}
-  git -C /repo checkout -q ${commit}^ -- src postgres redis sync sqlite r2d2 diesel runtime 2>/dev/null
+  sync_scratch
+  git -C /repo archive ${commit}^ src postgres redis sync sqlite r2d2 diesel runtime | tar -x -C $S/repo
   echo "pre-fix $commit ($p): $(run_check $p)" | tee -a $out
-  restore
 done
-echo "## mutants" | tee -a $out
+echo "## mutants/" | tee -a $out
 for f in mutants/*.patch; do
   p=$(basename $f | cut -d- -f1)
-  if git -C /repo apply --check $f 2>/dev/null; then git -C /repo apply $f; echo "$(basename $f) ($p): $(run_check $p)" | tee -a $out; restore; else echo "$(basename $f): does not apply to HEAD (kept for reference)" | tee -a $out; fi
+  sync_scratch
+  if (cd $S/repo && patch -p1 -s --dry-run < /verif/$f >/dev/null 2>&1); then (cd $S/repo && patch -p1 -s < /verif/$f); echo "$(basename $f) ($p): $(run_check $p)" | tee -a $out; else echo "$(basename $f): does not apply to HEAD (its defect is covered by the pre-fix tree above)" | tee -a $out; fi
 done
-echo "## seeded changes" | tee -a $out
+echo "## seeded/" | tee -a $out
 for d in seeded/*/; do
   id=$(basename $d); p=${id%%-*}
-  if git -C /repo apply --check $d/patch.diff 2>/dev/null; then git -C /repo apply $d/patch.diff; echo "$id ($p): $(run_check $p)" | tee -a $out; restore; else echo "$id: does not apply to HEAD" | tee -a $out; fi
+  sync_scratch
+  if (cd $S/repo && patch -p1 -s --dry-run < /verif/$d/patch.diff >/dev/null 2>&1); then (cd $S/repo && patch -p1 -s < /verif/$d/patch.diff); echo "$id ($p): $(run_check $p)" | tee -a $out; else echo "$id: does not apply to HEAD" | tee -a $out; fi
 done
+rm -rf $S
